@@ -184,14 +184,25 @@ def cli(cmd, argv, cwd, timeout=300):
     return p
 
 
+import itertools as _it
+
+# configuration combinations are covered systematically (each quick run visits every combination several times); the run mode
+# and numeric settings are drawn at random on top
+COMBOS = [dict(cmd=c, calc=k, nac=n, explicit_calc=e, born_late=b)
+          for c, k, n, e, b in _it.product(["phonopy", "phonopy-load"], ["vasp", "qe"], [False, True], [True, False], [False, True])
+          if not (c == "phonopy" and (not e or b)) and not (not n and b)]
+
+
 @st.composite
 def wf_specs(draw, tier):
-    return {"key": draw(keys), "proto": draw(st.sampled_from(["nacl_f", "cscl", "tric"])), "dim": draw(st.sampled_from([[2, 2, 2], [1, 1, 1], [2, 1, 1]])),
-            "mode": draw(st.sampled_from(["mesh_tprop", "band", "qpoints", "dos", "pdos", "tdisp", "writefc_readfc"])), "nac": draw(st.booleans()),
-            "cmd": draw(st.sampled_from(["phonopy", "phonopy-load"])), "mesh": draw(st.lists(st.integers(2, 5), min_size=3, max_size=3)),
+    combo = draw(st.sampled_from(COMBOS))
+    spec = {"key": draw(keys), "proto": draw(st.sampled_from(["nacl_f", "cscl", "tric"])), "dim": draw(st.sampled_from([[2, 2, 2], [1, 1, 1], [2, 1, 1]])),
+            "mode": draw(st.sampled_from(["mesh_tprop", "band", "qpoints", "dos", "pdos", "tdisp", "writefc_readfc"])),
+            "mesh": draw(st.lists(st.integers(2, 5), min_size=3, max_size=3)),
             "tmin": draw(st.sampled_from([0, 50, 100])), "tmax": draw(st.sampled_from([300, 400, 750])), "tstep": draw(st.sampled_from([50, 100, 150])),
-            "sigma": draw(st.sampled_from([None, 0.1, 0.25])), "calc": draw(st.sampled_from(["vasp", "vasp", "qe"])),
-            "gamma_center": draw(st.booleans()), "eigvecs": draw(st.booleans())}
+            "sigma": draw(st.sampled_from([None, 0.1, 0.25])), "gamma_center": draw(st.booleans()), "eigvecs": draw(st.booleans())}
+    spec.update(combo)
+    return spec
 
 
 def make_inputs(spec, d):
@@ -280,7 +291,8 @@ def run_workflow(spec):
 
 def _common_args(spec, cellfile, pa, use_load):
     a = []
-    if spec["calc"] == "qe":
+    # with phonopy-load the calculator is recorded in the yaml file; naming it again on the command line is optional
+    if spec["calc"] == "qe" and (not use_load or spec.get("explicit_calc", True)):
         a += ["--qe"]
     if use_load:
         a += ["--fc-calc", "traditional"]
@@ -302,9 +314,14 @@ def _run_workflow(spec, td):
     use_load = spec["cmd"] == "phonopy-load"
     mode = spec["mode"]
     mesh = [str(x) for x in spec["mesh"]]
-    classes = ["mode:" + mode, "cmd:" + spec["cmd"], "calc:" + spec["calc"], "nac" if spec["nac"] else "nonac", "proto:" + spec["proto"]]
+    classes = ["mode:" + mode, "cmd:" + spec["cmd"], "calc:" + spec["calc"], "nac" if spec["nac"] else "nonac", "proto:" + spec["proto"],
+               "born_late" if spec.get("born_late") else "born_early", "calc_from_yaml" if (use_load and spec["calc"] == "qe" and not spec.get("explicit_calc", True)) else "calc_explicit_or_vasp"]
     if use_load:
-        # phonopy-load reads a phonopy yaml: produce it with the -d step of the phonopy command
+        # phonopy-load reads a phonopy yaml: produce it with the -d step of the phonopy command. BORN may be computed only
+        # after the displacements were created (then phonopy_disp.yaml carries no NAC section and BORN is read at run time)
+        late = spec.get("born_late") and os.path.exists(os.path.join(dA, "BORN"))
+        if late:
+            os.rename(os.path.join(dA, "BORN"), os.path.join(td, "BORN.later"))
         r = cli("phonopy", (["--qe"] if spec["calc"] == "qe" else []) + ["-d", "--dim"] + [str(x) for x in spec["dim"]] + (["--pa", pa] if pa else []) +
                 ["-c", cellfile, "--amplitude", "0.03" if spec["calc"] == "vasp" else "0.06"], dA)
         if r.returncode != 0 or not os.path.exists(os.path.join(dA, "phonopy_disp.yaml")):
@@ -314,6 +331,8 @@ def _run_workflow(spec, td):
         want = np.array([dd["displacement"] for dd in ph0.dataset["first_atoms"]])
         if got.shape != want.shape or np.abs(got - want).max() > 1e-12:
             return Out(ok=False, msg="displacements created by 'phonopy -d' differ from Phonopy.generate_displacements()")
+        if late:
+            os.rename(os.path.join(td, "BORN.later"), os.path.join(dA, "BORN"))
         yamlin = ["phonopy_disp.yaml"]
     else:
         yamlin = []
@@ -362,7 +381,7 @@ def _run_workflow(spec, td):
             shutil.copy(os.path.join(dA, f), dB)
     if use_load:
         confB = conf_lines + ["FC_CALCULATOR = traditional"]
-        argvB = ["phonopy_disp.yaml", "--config", "p.conf"] + (["--qe"] if spec["calc"] == "qe" else [])
+        argvB = ["phonopy_disp.yaml", "--config", "p.conf"] + (["--qe"] if spec["calc"] == "qe" and spec.get("explicit_calc", True) else [])
     else:
         confB = conf_lines + ["DIM = " + " ".join(str(x) for x in spec["dim"]), "CELL_FILENAME = " + cellfile] + (["PRIMITIVE_AXES = " + pa] if pa else []) + \
             (["NAC = .TRUE."] if spec["nac"] else [])
@@ -522,7 +541,7 @@ def compare_with_library(spec, ph, d, mode):
 SUBCHECKS = [
     Sub("tags", run=run_tags, strategy=tag_specs, examples={"quick": 2500, "thorough": 60000}, shards={"quick": 4, "thorough": 16}, builds=["omp"],
         what="every documented (option, tag) pair, both commands: configuration-file route and option route give the same Settings"),
-    Sub("workflows", run=run_workflow, strategy=wf_specs, examples={"quick": 48, "thorough": 1500}, shards={"quick": 16, "thorough": 16}, builds=["omp"],
+    Sub("workflows", run=run_workflow, strategy=wf_specs, examples={"quick": 128, "thorough": 3000}, shards={"quick": 16, "thorough": 16}, builds=["omp"],
         budget={"quick": 150, "thorough": 3000},
         what="real command runs (options and conf file) vs library calls: -d, mesh/thermal, band, q-points, dos/pdos, thermal displacements, write/read fc, phonopy.yaml reload"),
 ]
